@@ -165,6 +165,54 @@ func runC16(r *Run) {
 
 	// R2
 	hook := w.View("x/dogfood/keeper", "EpochsHooksWrapper.AfterEpochEnd")
+	if hook != nil {
+		// every end of a dogfood epoch promotes its queues: once the identifier matched, nothing returns
+		// before the last SetPending… (an "it is too early for anything to mature" shortcut strands the
+		// entries of an epoch when the unbonding parameter changes)
+		var lastPromote ast.Node
+		for _, c := range hook.CallsNamed("SetPendingOptOuts", "SetPendingConsensusAddrs", "SetPendingUndelegations") {
+			if lastPromote == nil || c.Pos() > lastPromote.Pos() {
+				lastPromote = c
+			}
+		}
+		var early []string
+		if lastPromote != nil {
+			ast.Inspect(hook.Decl.Body, func(n ast.Node) bool {
+				if _, isLit := n.(*ast.FuncLit); isLit {
+					return false
+				}
+				rs, isRet := n.(*ast.ReturnStmt)
+				if isRet && rs.Pos() < lastPromote.Pos() {
+					early = append(early, hook.pos(rs))
+				}
+				return true
+			})
+		}
+		r.check(lastPromote != nil && len(early) == 0, "C16.R2", "promote|every-epoch-end", hook.pos(hook.Decl), "every end of a dogfood epoch promotes that epoch's queues (no return in front of the promotions)", "the epoch hook can return at "+strings.Join(early, ", ")+" before it promotes the epoch's queues: entries registered for that epoch are never released")
+	}
+	// "no opt-out in progress" is reported with a value that is not an epoch: the consumer tests `< 0`
+	if gv := w.View("x/dogfood/keeper", "Keeper.GetOperatorOptOutFinishEpoch"); gv != nil {
+		okSent := false
+		ast.Inspect(gv.Decl.Body, func(n ast.Node) bool {
+			rs, isRet := n.(*ast.ReturnStmt)
+			if !isRet || len(rs.Results) != 1 {
+				return true
+			}
+			absent := false
+			for _, f := range gv.FactsAt(rs, false) {
+				if c, isC := factCmp(f); isC && c.Op == "==" && isNilIdent(gv.Info, c.R) {
+					absent = true
+				}
+			}
+			if absent {
+				if cv := gv.constOf(rs.Results[0]); cv != nil && constant.Sign(cv) < 0 {
+					okSent = true
+				}
+			}
+			return true
+		})
+		r.check(okSent, "C16.R6", "finish-epoch-absent-is-negative", gv.pos(gv.Decl), "an absent opt-out finish epoch is reported as a negative number (epochs start at 0/1, and the consumers test `< 0`)", "GetOperatorOptOutFinishEpoch does not return a negative constant when no finish epoch is stored: the hold hook takes the value for an epoch, queues the undelegation for an epoch that never ends, and the hold is never released")
+	}
 	if hook == nil {
 		r.bad("C16.R2", "anchor", "-", "anchor", "dogfood EpochsHooksWrapper.AfterEpochEnd not found")
 	} else {
